@@ -17,7 +17,7 @@ import numpy as np
 import pandas as pd
 
 from taskchain import Task, ModuleTask, DoubleModuleTask, InMemoryData
-from taskchain.data import DirData, ContinuesData, GeneratedDataLazy, ListOfNumpyData
+from taskchain.data import DirData, ContinuesData, GeneratedDataLazy, JSONData, ListOfNumpyData
 from taskchain.parameter import Parameter, InputTaskParameter, AutoParameterObject, ParameterObject
 from taskchain.chain import ChainObject
 
@@ -111,6 +111,22 @@ class LabMem(InMemoryData):
         self.payload = None
 
 
+class LabJsonLen(JSONData):
+    """user-defined persisted data class with a length (0 until a value is set or loaded): data objects may be falsy"""
+
+    DATA_TYPES = []        # only used where a task names it as its data_class
+
+    def __len__(self):
+        return len(self._value) if self._value is not None else 0
+
+
+class LabMemEmpty(LabMem):
+    """an in-memory result that is an EMPTY container (falsy), e.g. a vocabulary from which a threshold removed every word"""
+
+    def __len__(self):
+        return 0
+
+
 # ---- canonical forms ---------------------------------------------------------------------------------------------
 
 def H(obj) -> str:
@@ -189,6 +205,8 @@ def vdigest(value) -> str:
 
 def encode(kind: str, h: str):
     """the value a task of data kind `kind` returns for descriptor hash h (shared by runtime and reference model)"""
+    if kind == 'json_len':
+        return {'prov': h, 'kind': 'json_len'}
     if kind == 'json_dict':
         return {'prov': h, 'kind': kind, 'nested': {'l': [1, 2.5, None]}}
     if kind == 'json_list':
@@ -234,9 +252,9 @@ def expected_vdigest(kind: str, h: str) -> str:
 RETURN_TYPES = {
     'json_dict': dict, 'json_list': list, 'str': str, 'int': int, 'numpy': np.ndarray, 'pandas': pd.DataFrame,
     'generator': Generator, 'lazy': list, 'listnp': list, 'dir': DirData, 'continues': ContinuesData, 'memory': LabMem,
-    'empty_gen': Generator, 'empty_listnp': list, 'empty_dir': DirData, 'dir_link': DirData,
+    'empty_gen': Generator, 'empty_listnp': list, 'empty_dir': DirData, 'dir_link': DirData, 'json_len': dict,
 }
-DATA_CLASS = {'lazy': GeneratedDataLazy, 'listnp': ListOfNumpyData, 'empty_listnp': ListOfNumpyData}
+DATA_CLASS = {'lazy': GeneratedDataLazy, 'listnp': ListOfNumpyData, 'empty_listnp': ListOfNumpyData, 'json_len': LabJsonLen}
 
 
 def descriptor_hash(slug, persisted_params: dict, explicit_digests: list, all_digests: list) -> str:
@@ -358,7 +376,7 @@ def lab_run(task, spec, args):
             data.finished()
         return data
     if kind == 'memory':
-        m = LabMem()
+        m = LabMem() if int(h[:2], 16) % 2 else LabMemEmpty()
         m.payload = value
         return m
     return value
